@@ -10,8 +10,6 @@ Definition V_AGREE : N := 0.
 Definition V_VIOLATION : N := 1.
 Definition V_DIVERGE : N := 2.
 Definition V_MALFORMED : N := 9.
-Definition V_F4 : N := 104.
-Definition V_F5 : N := 105.
 Definition V_K2R : N := 106.
 
 Definition ncmp := N.compare.
@@ -38,6 +36,7 @@ Definition reg_code (e : reg_err) : N :=
   | RE_lit_vs_var => 7 | RE_var_vs_lit => 8 | RE_var_vs_rest => 9 | RE_var_name => 10
   | RE_after_wild => 11 | RE_dup_var => 12 | RE_rest_vs_lit => 13 | RE_rest_vs_var => 14
   | RE_rest_name => 10 | RE_dup_route => 16 | RE_overlap => 17
+  | RE_dot_segment => 18 | RE_rest_vs_exact => 19 | RE_exact_vs_rest => 20
   end.
 
 Definition varval_eqb (a b : varval) : bool :=
@@ -131,11 +130,7 @@ Definition judge_lookup (acc : list (decl N)) (r : node N)
   | Ok segs =>
       let model := lookup N ncmp r m segs v in
       let x := expect N ncmp acc m segs v in
-      if f4_class N acc segs then
-        (if obs_is_outcome o model then
-           (if obs_is_expected o x then V_AGREE else V_F4)
-         else V_DIVERGE)
-      else if obs_is_expected o x then
+      if obs_is_expected o x then
         (if obs_is_outcome o model then V_AGREE else V_DIVERGE)
       else V_VIOLATION
   end.
@@ -148,8 +143,6 @@ Fixpoint judge_lookups acc r (qs : list (str * str * option N)) (os : list obs) 
   end.
 
 (* ---- reachability of every accepted endpoint (C02) ---- *)
-Definition has_dot_lit (t : list pseg) : bool :=
-  existsb (fun p => match p with PLit s => is_dot_segment s | _ => false end) t.
 Definition empty_range (r : vrange N) : bool :=
   match r with VUntil b => b =? 0 | _ => false end.
 
@@ -157,9 +150,7 @@ Definition judge_reach (acc : list (decl N)) (versioned : bool) (os : list obs) 
   map (fun d : decl N =>
          if existsb (fun o => match o with OFound id _ _ _ => str_eqb id (e_id (snd d)) | _ => false end) os
          then V_AGREE
-         else if has_dot_lit (fst d) then V_F5
          else if versioned && empty_range (e_versions (snd d)) then V_K2R
-         else if existsb (fun d' => f4_pair (fst d) (fst d')) acc then V_F4
          else V_VIOLATION) acc.
 
 Definition judge_detail (c : rcase) : list N :=
